@@ -56,8 +56,14 @@ class _G:
     def desc(self) -> str:
         return _desc(self.draw, self.used, self.opts.adversarial_text)
 
-    def len_atom(self, key: str, expr: str) -> Tuple[str, Dict[str, Any]]:
+    def len_atom(self, key: str, expr: str, within: Tuple[Optional[int], Optional[int]] = (None, None)) -> Tuple[str, Dict[str, Any]]:
+        """``within``: bounds the value is already subject to elsewhere (its constrained primitive); the new bound
+        is mostly drawn so that the two stay jointly satisfiable."""
         lo, hi = self.range.get(key, [None, None])
+        if within[0] is not None:
+            lo = within[0] if lo is None else max(lo, within[0])
+        if within[1] is not None:
+            hi = within[1] if hi is None else min(hi, within[1])
         for _ in range(8):
             op = self.pick(LEN_OPS)
             k = self.draw(st.integers(-1, 6))
@@ -123,13 +129,21 @@ def add_schema_invariants(draw: Any, spec: Spec, opts: Opts, used: set) -> None:
         for p in props:
             # more invariants on own properties, fewer (tightenings) on inherited ones
             pr = 0.6 if p.name in own else (0.5 if len(c.bases) >= 1 else 0.25)
+            t = p.type.core
+            cp_len = t.kind == "cp" and any(
+                inv.tags.get("form") == "len" for k in [t.name] + spec.cp_ancestors(t.name) for inv in spec.cp(k).invs)
+            if cp_len:
+                pr = max(pr, 0.8)
             if not g.chance(pr):
                 continue
-            t = p.type.core
             prim = _prim(spec, t)
             forms = []
             if prim in ("str", "bytearray") or t.kind == "list":
                 forms += ["len", "len", "len", "len_near"]
+            if cp_len:
+                # the constrained primitive already bounds the length: a further bound declared by the class
+                # has to be merged with it (the tighter one counts)
+                forms += ["len"] * 4
             if prim == "str" and pfns:
                 forms += ["pattern", "pattern", "pattern2", "pattern2", "pattern_near"]
                 if len(pfns) >= 3:
@@ -154,7 +168,14 @@ def add_schema_invariants(draw: Any, spec: Spec, opts: Opts, used: set) -> None:
                 if f == "len":
                     # one range per property over the whole hierarchy keeps tightenings of different
                     # descendants (diamond arms) mutually satisfiable most of the time
-                    body, tags = g.len_atom(f"prop:{p.name}", e)
+                    within = (None, None)  # type: Tuple[Optional[int], Optional[int]]
+                    if t.kind == "cp":
+                        bounds = [(inv.tags.get("min"), inv.tags.get("max")) for k in [t.name] + spec.cp_ancestors(t.name)
+                                  for inv in spec.cp(k).invs if inv.tags.get("form") == "len"]
+                        mins = [a for a, _ in bounds if a is not None]
+                        maxs = [b for _, b in bounds if b is not None]
+                        within = (max(mins) if mins else None, min(maxs) if maxs else None)
+                    body, tags = g.len_atom(f"prop:{p.name}", e, within)
                     tags["recognised"] = True
                 elif f == "len_near":
                     k = draw(st.integers(0, 4))
